@@ -127,15 +127,23 @@ def gen_mibdump(rng, tier):
         # one store operation fails: the k-th temp file / write / rename of the run
         scn['faults'] = [{'op': 0, 'site': rng.choice(['mkstemp', 'os.write', 'os.rename', 'os.close']), 'nth': rng.choice([0, 0, 1, 2, 3]),
                           'action': 'errno', 'arg': rng.choice(['ENOSPC', 'EIO', 'EACCES'])}]
-    if rng.random() < 0.1 and len(names) >= 2 and not scn.get('usage'):
-        # the shape in which report, exit code and directory are easiest to get out of step: one module is broken and
-        # replaced by a borrowed copy, another is compiled, and one store operation of the run fails (errors not ignored)
-        bad = rng.choice(names)
+    leaves = [m for m in names if not any(m in specs[o]['imports'] or specs[o].get('defval_dep') == m for o in names if o != m)]
+    if rng.random() < 0.1 and len(names) >= 2 and leaves and not scn.get('usage'):
+        # the shape in which report, exit code and directory are easiest to get out of step: one module (that nobody
+        # imports) is broken and replaced by a borrowed copy, everything else is healthy and gets compiled, and one
+        # store operation of the run fails (errors not ignored)
+        bad = rng.choice(leaves)
+        for m in names:
+            specs[m]['variant'] = 'ok'
+            specs[m].pop('oiddefval', None)
+            if fnames[m] is None:
+                fnames[m] = m
         specs[bad]['variant'] = rng.choice(['lex', 'syntax', 'cut', 'dupsym', 'badref'])
-        fnames[bad] = bad
-        scn['borrow'] = sorted(set(scn.get('borrow', [])) | set([bad]))
-        scn['flags'] = [f for f in flags if f not in ('--ignore-errors', '--dry-run', '--no-mib-writes', '--no-dependencies')]
-        scn['requested'] = sorted(set(req) | set(names))
+        scn['borrow'] = [bad]
+        if fmt == 'null':
+            scn['format'] = 'json'
+        scn['flags'] = [f for f in flags if f not in ('--ignore-errors', '--dry-run', '--no-mib-writes', '--no-dependencies', '--build-index')]
+        scn['requested'] = sorted(names)
         scn.pop('rate', None)
         scn.pop('stubs', None)
         scn['dest'] = rng.choice(['missing', 'empty'])
